@@ -254,7 +254,7 @@ def tcheckEnv (C : Contract) : FTree → List BVal → List BVal → Bool
   | .leaf ops ok outs, e, post =>
     match brun C ops e with
     | none => false
-    | some e' => !ok || outsOK e' outs post
+    | some e' => !ok || outs.isEmpty || outsOK e' outs post   -- error leaf, panic leaf (no outputs), or outputs in class
   | .node ops c _ t f, e, post =>
     match brun C ops e with
     | none => false
